@@ -12,7 +12,7 @@ ID = 'C12'
 LEVEL = 'exploration'
 RUNS = {'quick': 16000, 'thorough': 300000}
 CHUNK = 40
-PROBES = ['tid_zero_filter', 'filter_list_edited_in_place', 'boundary_subclass_event_kept', 'class_filter', 'subclass_filter', 'class_and_subclass', 'tid_filter', 'tid_and_class', 'empty_lists', 'tuple_filter',
+PROBES = ['other_request_while_listing_pending', 'numeric_looking_process_filter', 'tid_zero_filter', 'filter_list_edited_in_place', 'boundary_subclass_event_kept', 'class_filter', 'subclass_filter', 'class_and_subclass', 'tid_filter', 'tid_and_class', 'empty_lists', 'tuple_filter',
           'filter_matches_nothing', 'log_listing', 'log_process_filter_by_name', 'log_process_filter_by_pid', 'log_tid_filter',
           'abandoned_listing_before', 'reconfigured_between_requests', 'v3_dump']
 RULE = ('one run = one long-lived PyKdebugParser, a history of 2..7 operations (reconfigure filters, abandoned listing, judged '
@@ -42,6 +42,9 @@ def _gen_filters(rng, dump, stream_ids, tids, procs):
         f['sub'] = []
     if rng.chance(0.3):
         f['proc'] = rng.pick(procs) if procs and rng.chance(0.8) else rng.pick(['nosuch', '', '0'])
+        if f['proc'].isdigit() and rng.chance(0.3):
+            # not the decimal text of the pid, only something int() would accept
+            f['proc'] = rng.pick(['0' + f['proc'], '+' + f['proc'], ' ' + f['proc'], f['proc'] + ' ', f['proc'][:1] + '_' + f['proc'][1:] if len(f['proc']) > 1 else '00' + f['proc']])
     f['as_tuple'] = rng.chance(0.3)
     return f
 
@@ -99,7 +102,13 @@ def generate(rng, index, tier):
         elif r < 0.5:
             hist.append({'op': 'abandon', 'dump': di, 'what': rng.pick(['kevents', 'logs']), 'after': rng.randint(0, 3)})
         else:
-            hist.append({'op': 'request', 'dump': di, 'what': rng.pick(['kevents', 'kevents', 'logs'])})
+            req = {'op': 'request', 'dump': di, 'what': rng.pick(['kevents', 'kevents', 'logs'])}
+            if rng.chance(0.25):
+                # between creating the judged listing and consuming it, ANOTHER request is issued on the same object
+                # (the configuration stays as it is)
+                req['meanwhile'] = {'what': rng.pick(['traces', 'traces', 'kevents', 'callstacks', 'logs']), 'dump': rng.randrange(len(dumps)),
+                                    'pull': rng.randint(0, 3)}
+            hist.append(req)
     if not any(h['op'] == 'request' for h in hist):
         hist.append({'op': 'request', 'dump': 0, 'what': 'kevents'})
     return {'dumps': dumps, 'history': hist}
@@ -201,7 +210,25 @@ def execute(scn):
             bump('fault:abandon')
             hist.append(['abandon', what])
             continue
-        items, exc = common.drain(lambda: (p.kevents if what == 'kevents' else p.os_log_events)(SimReader(files[di])))
+        if h.get('meanwhile'):
+            mw = h['meanwhile']
+            bump('probe:other_request_while_listing_pending')
+            bump('fault:interleaved_request')
+            pending = None
+            try:
+                pending = (p.kevents if what == 'kevents' else p.os_log_events)(SimReader(files[di]))
+                fn = {'traces': lambda rd: p.traces(rd, tool.codes()), 'callstacks': lambda rd: p.callstacks(rd, tool.codes()),
+                      'kevents': p.kevents, 'logs': p.os_log_events}[mw['what']]
+                other = iter(fn(SimReader(files[mw['dump'] % len(files)])))
+                for _ in range(mw.get('pull', 0)):
+                    if next(other, None) is None:
+                        break
+                held.append(other)
+            except Exception:
+                pass
+            items, exc = common.drain(lambda: pending) if pending is not None else ([], None)
+        else:
+            items, exc = common.drain(lambda: (p.kevents if what == 'kevents' else p.os_log_events)(SimReader(files[di])))
         ritems, rexc = ref(di, what)
         if rexc is not None or exc is not None:
             hist.append(['request', what, 'exc', type(exc).__name__ if exc else None, type(rexc).__name__ if rexc else None])
@@ -242,6 +269,8 @@ def execute(scn):
                 viols.append({'tag': 'event-in-log-listing', 'sig': 'logs', 'detail': ''})
             want = [repr(e) for e in ritems if pred(e)]
             got = [repr(e) for e in items]
+            if cur.get('proc') and not cur['proc'].isdigit() and cur['proc'].strip().lstrip('+').replace('_', '').isdigit():
+                bump('probe:numeric_looking_process_filter')
             if cur.get('proc') is not None and ritems:
                 bump('probe:log_process_filter_by_pid' if cur['proc'].isdigit() else 'probe:log_process_filter_by_name')
             if cur.get('tid') is not None and ritems:
